@@ -74,8 +74,7 @@ func checkC19(c *vx.Ctx) {
 		for _, b0 := range f.Bases {
 			for _, o1 := range f.seqOps(nil) {
 				prefixEdges++
-				b1, p1 := modelAfter(f, b0, []op{o1})
-				_ = b1
+				_, p1 := modelAfter(f, b0, []op{o1})
 				for _, o2 := range f.seqOps(p1) {
 					prefixEdges++
 					jobs = append(jobs, vx.Job{Exec: "c19seq", Hist: []string{o1.String(), o2.String()},
@@ -177,7 +176,6 @@ func checkC19(c *vx.Ctx) {
 			}
 		}
 	}
-	_ = nSeqJobs
 	sort.SliceStable(found, func(i, j int) bool {
 		if found[i].v.Step != found[j].v.Step {
 			return found[i].v.Step < found[j].v.Step
